@@ -24,7 +24,7 @@ COMPONENTS = {"real": ["ECAgent.Environments.DiscreteWorld.add_cell_component / 
               "stub": ["callable generators and source buffers are harness-built"]}
 PROBES = ["src_callable", "src_list", "src_ndarray_int", "src_ndarray_float", "src_const", "src_lookup_list",
           "src_lookup_nd", "alias_after_ndarray", "alias_after_list", "zero_extent_below_populated", "readd_removed_name",
-          "remove_unknown_rejected", "lookup_1d", "lookup_2d", "lookup_3d", "get_cell_compared", "generator_object_reused", "src_lookup_reuse",
+          "remove_unknown_rejected", "lookup_1d", "lookup_2d", "lookup_3d", "get_cell_compared", "generator_object_reused", "readd_live_name_overwrites", "src_lookup_reuse",
           "src_lookup_rebind", "src_const_reuse"]
 TECHNIQUE = "deterministic simulation: seeded add/remove histories of cell components with injected rejected removals and caller-side buffer mutation vs a per-cell reference table"
 LEVEL_TEXT = ("Seeded search over grid shapes, source kinds and add/remove histories; after every operation the column set, the "
@@ -119,8 +119,7 @@ def execute(sc, ctx):
         kind = op["op"]
         if kind == "add":
             name = op["name"]
-            if name in live:
-                continue
+            readd = name in live
             serial += 1
             src = op["src"]
             buf = None
@@ -197,7 +196,13 @@ def execute(sc, ctx):
             if st != "ok":
                 ctx.fail("add-cell-component:unexpected-exception",
                          f"{src} source on {spec['kind']} {(W, H, D)}: {type(v).__name__}: {v}")
-            live[name] = {"vals": vals, "kind": src, "buf": buf}
+            if readd:
+                # same name again without removing it first: the component now holds the new source's values, keeps its
+                # place among the columns, and nothing else changes
+                live[name].update({"vals": vals, "kind": src, "buf": buf})
+                ctx.probe("readd_live_name_overwrites")
+            else:
+                live[name] = {"vals": vals, "kind": src, "buf": buf}
             ctx.probe("src_" + src)
             if name in removed:
                 ctx.probe("readd_removed_name")
